@@ -8,10 +8,12 @@ package main
 // sees something else than one of the two expected behaviours says false.
 
 import (
+	"encoding/binary"
 	"errors"
 	"io"
 	"net"
 	"os"
+	"os/exec"
 	"sync"
 	"syscall"
 	"time"
@@ -292,4 +294,51 @@ func probeDeadlines() bool {
 		return false
 	}
 	return okAB && okBA
+}
+
+// probeHugeLen: a peer sends a header that announces 0x80000000 and one that announces 0xffffffff bytes.  A reader
+// that panics on it takes the process down, so the probe runs in a re-executed child of the translator
+// (-probechild hugelen): exit status 0 = the reader allocated and waited, and failed stop when the trunk ended.
+func probeHugeLen() bool {
+	cmd := exec.Command(os.Args[0], "-probechild", "hugelen")
+	done := make(chan error, 1)
+	if err := cmd.Start(); err != nil {
+		return false
+	}
+	go func() { done <- cmd.Wait() }()
+	select {
+	case err := <-done:
+		return err == nil
+	case <-time.After(20 * time.Second):
+		cmd.Process.Kill()
+		return false
+	}
+}
+
+func probeChild(which string) int {
+	if which != "hugelen" {
+		return 2
+	}
+	for _, ln := range []uint32{0x80000000, 0xffffffff} {
+		a, b := net.Pipe()
+		m := multiplex.Multiplex(b)
+		c, err := m.Open(1)
+		if err != nil {
+			return 1
+		}
+		hdr := make([]byte, 8)
+		binary.BigEndian.PutUint32(hdr, 1)
+		binary.BigEndian.PutUint32(hdr[4:], ln)
+		if !within(func() { a.Write(hdr) }) {
+			return 1
+		}
+		time.Sleep(50 * time.Millisecond)
+		a.Close()
+		var rerr error
+		if !within(func() { _, rerr = c.Read(make([]byte, 8)) }) || rerr == nil {
+			return 1
+		}
+		m.Close()
+	}
+	return 0
 }
